@@ -669,3 +669,35 @@ def ristretto_batch(F, fe_ty):
                 if len(enc) != 1 or not same(enc[0], fneg(sv) if sn else sv):
                     bad.append("the encoded value is %s, expected |(h - g) magic g Tinv|" % (show(enc[0], 3) if enc and enc[0] is not None else "?"))
                 yield inst, f, not bad, "; ".join(bad) if bad else "s = |(h - g) (magic g Tinv)| with e, f, g, h of the doubled point, Zinv = eg/(eg fh), Tinv = fh/(eg fh) through batch_invert, and the rotation / sign selection of the single-point encoder"
+
+
+def point_sums(F, type_rx):
+    """yield (instance, fn, ok, msg): `impl Sum<T> for <point type>` over iterators of 0..3 symbolic points returns their formal sum (LINCOMB domain:
+    the point operations are the group operations, decided elsewhere); forms that are not compositions of group operations are undecided and reported"""
+    import eng_lincomb as LC
+    from absint import I as Iv
+    for f in F.fns.values():
+        if "mir" not in f or f["kind"] == "Closure" or not re.search(type_rx + r" as core::iter::Sum<T>>::sum$", f["path"]):
+            continue
+        tyname = re.search(r"(\w+) as core::iter::Sum", f["path"]).group(1)
+        wrapped = tyname != "EdwardsPoint"
+        bad = None
+        for k in range(4):
+            xs = [(("st", (LC.sym("P%d" % i),)) if wrapped else LC.sym("P%d" % i)) for i in range(k)]
+            try:
+                ret, ip = LC.run(F, f, [("it", "vals", ("arr", tuple(xs)), Iv(0), Iv(k))])
+            except Exception as e:
+                bad = "n=%d: analysis failed: %r" % (k, e)
+                break
+            v = ret
+            while v is not None and v[0] == "st" and len(v[1]) == 1:
+                v = v[1][0]
+            want = {("P%d" % i, None): 1 for i in range(k)}
+            got = LC.terms(v)
+            if got is None:
+                bad = "n=%d: the result is not a composition of group operations on the items (undecided form)" % k
+                break
+            if got != want:
+                bad = "n=%d: returns %s, expected %s" % (k, " + ".join("%d*%s" % (c, p) for (p, _), c in sorted(got.items())) or "the identity", " + ".join("P%d" % i for i in range(k)) or "the identity")
+                break
+        yield "%s::sum" % tyname, f, bad is None, bad or "iterators of 0..3 points: the result is the group sum of the items (the empty sum is the identity)"
